@@ -125,7 +125,7 @@ Example C17_nonvacuous :
   let u := (e ++ [97; 98])%N in
   let ops := [OBind (Some [97]) e true false; OQname u; OBind (Some [97]) ea false false;
               OBind (Some [98]) ea true false; OQname u; OCurie (e ++ [121]) true]%N in
-  let c := {| c_cats := [(97, 1); (98, 1); (101, 1); (104, 1); (120, 1); (121, 1)]%N; c_ops := ops |} in
+  let c := {| c_cats := [(97, 1); (98, 1); (101, 1); (104, 1); (120, 1); (121, 1)]%N; c_ops := ops; c_tag := 0 |} in
   map s_res (model_obs c) =
     [RUnit; RQ [97; 58; 97; 98]%N ([97], e, [97; 98])%N (Some u);
      RUnit; RUnit;
@@ -206,3 +206,9 @@ Example C17_trie_all_orders_sample :
   let us := [e ++ [97; 47; 98; 47; 120]; e ++ [97; 98; 99]; e ++ [120]; e ++ [97; 47; 120]; [104; 58]; e ++ [97]]%N in
   forallb (fun p => forallb (fun u => opt_eqb str_eqb (gln (build p) u) (longest_of vs u)) us) (perms vs) = true.
 Proof. vm_compute. reflexivity. Qed.
+
+(* The suites hand observations over in a packed form (string table + indices); what is
+   evaluated on them is the same checker after decoding, and it holds of the model. *)
+Theorem C17_d_spec_model : forall c, d_spec c (d_model c) = true.
+Proof. intros c. exact (spec_ok_model c). Qed.
+Print Assumptions C17_d_spec_model.
